@@ -14,10 +14,13 @@ def lexLt (a b : Key) : Prop :=
 def lexLe (a b : Key) : Prop :=
   a.1 < b.1 ∨ (a.1 = b.1 ∧ (a.2.1 < b.2.1 ∨ (a.2.1 = b.2.1 ∧ a.2.2 ≤ b.2.2)))
 
-/-- the relation "sent earlier with a strictly smaller key" between signed messages (votes only) -/
-def msgLt : Msg → Msg → Prop
-  | .vote v, .vote w => lexLt (voteKey v) (voteKey w)
-  | _, _ => True
+/-- step-key of a signed message: a proposal is signed in step propose, a prevote in prevote … -/
+def msgKey : Msg → Key
+  | .proposal _ h r _ _ => (h, r, stPropose)
+  | .vote v => voteKey v
+
+/-- "signed earlier with a strictly smaller key" -/
+def msgLt (a b : Msg) : Prop := lexLt (msgKey a) (msgKey b)
 
 /-- control projection: the only fields the invariant talks about -/
 structure Ctrl where
@@ -30,18 +33,25 @@ structure Ctrl where
 
 def ctrl (s : S) : Ctrl := ⟨s.height, s.round, s.step, s.pend, sentOf s.eff, s.stuck⟩
 
-def importCurrent (c : Ctrl) : Prop := ∃ b, c.pend = .import_ c.height c.round b
+/-- an outstanding BlockManager callback that may still sign a message: `(h, r, lo, hi)` — it signs a
+    message with step-key `lo` of round (h, r) if it fires while `lo ≤ step ≤ hi` -/
+def pendWin : Pend → Option (Nat × Nat × Nat × Nat)
+  | .import_ h r _ => some (h, r, 4, 5)
+  | .propose h r => some (h, r, 3, 3)
+  | _ => none
+
+def pendCurrent (c : Ctrl) (lo hi : Nat) : Prop := pendWin c.pend = some (c.height, c.round, lo, hi)
 
 structure CoreC (c : Ctrl) : Prop where
-  /-- every vote sent so far has a key ≤ (height, round, step) -/
-  bnd : ∀ v, Msg.vote v ∈ c.sent → lexLe (voteKey v) (c.height, c.round, c.step)
-  /-- votes were sent with strictly increasing keys -/
+  /-- every message signed so far has a key ≤ (height, round, step) -/
+  bnd : ∀ m, m ∈ c.sent → lexLe (msgKey m) (c.height, c.round, c.step)
+  /-- messages were signed with strictly increasing keys -/
   inc : c.sent.Pairwise msgLt
-  /-- an outstanding import callback of the current round can still send a prevote: none was sent -/
-  imp : c.stuck = false → importCurrent c →
-        4 ≤ c.step ∧ (c.step ≤ 5 → ∀ v, Msg.vote v ∈ c.sent → lexLt (voteKey v) (c.height, c.round, 4))
+  /-- an outstanding callback of the current round that can still sign: nothing with its key was signed -/
+  imp : c.stuck = false → ∀ lo hi, pendCurrent c lo hi →
+        lo ≤ c.step ∧ (c.step ≤ hi → ∀ m, m ∈ c.sent → lexLt (msgKey m) (c.height, c.round, lo))
   /-- callbacks are never for a future round -/
-  pnd : ∀ h r b, c.pend = .import_ h r b → h < c.height ∨ (h = c.height ∧ r ≤ c.round)
+  pnd : ∀ h r lo hi, pendWin c.pend = some (h, r, lo, hi) → h < c.height ∨ (h = c.height ∧ r ≤ c.round)
 
 def Core (s : S) : Prop := CoreC (ctrl s)
 
@@ -201,6 +211,71 @@ theorem applyRoundWAL_dominates (s : S) (W : List Rec) (v : VoteRec)
       | msg m =>
         cases m with
         | proposal sg h r b pol =>
+          unfold applyRoundWAL
+          split
+          · exact step s ⟨rfl, rfl, rfl⟩
+          · split
+            · exact step s ⟨rfl, rfl, rfl⟩
+            · split
+              · exact step _ ⟨rfl, rfl, rfl⟩
+              · exact step s ⟨rfl, rfl, rfl⟩
+        | vote m =>
+          unfold applyRoundWAL
+          have hk := (hvsAdd_keep s m).1
+          split
+          · exact step s ⟨rfl, rfl, rfl⟩
+          · split
+            · exact step s ⟨rfl, rfl, rfl⟩
+            · split
+              · exact step s ⟨rfl, rfl, rfl⟩
+              · simp only []
+                split
+                · exact step _ hk
+                · exact step _ hk
+      | voteList vl =>
+        unfold applyRoundWAL
+        have hk := (addVotes_keep s vl).1
+        simp only []
+        split
+        · exact step _ (addVotes_keep s []).1
+        · rename_i w ws
+          have ha := (advanceByList_keep (addVotes s (w :: ws)) w).1
+          exact step _ (by unfold sameId at *; omega)
+      | blockPart h b =>
+        unfold applyRoundWAL
+        exact step s ⟨rfl, rfl, rfl⟩
+
+
+/-- the same for an own proposal found in the WAL -/
+theorem applyRoundWAL_dominates_prop (s : S) (W : List Rec) (sg h r : Nat) (b : Blk) (pol : Int)
+    (hv : Rec.msg (.proposal sg h r b pol) ∈ W) (hh : h = s.height) (hm : sg = s.me) :
+    le2 (r, stPropose) ((applyRoundWAL s W).round, (applyRoundWAL s W).step) := by
+  induction W generalizing s with
+  | nil => cases hv
+  | cons x t ih =>
+    rcases List.mem_cons.mp hv with heq | hin
+    · subst heq
+      unfold applyRoundWAL
+      rw [if_neg (by simp [hh]), if_neg (by simp [hm])]
+      split
+      · have := applyRoundWAL_keep { s with round := r, step := stPropose } t
+        unfold sameId le2 at *
+        simp only [] at this
+        omega
+      · rename_i hc
+        simp only [Bool.or_eq_true, Bool.and_eq_true, decide_eq_true_eq, beq_iff_eq, not_or, not_and] at hc
+        have := applyRoundWAL_keep s t
+        unfold sameId le2 at *
+        omega
+    · have step : ∀ s1 : S, sameId s s1 →
+          le2 (r, stPropose) ((applyRoundWAL s1 t).round, (applyRoundWAL s1 t).step) := by
+        intro s1 h1
+        unfold sameId at h1
+        exact ih s1 hin (by omega) (by omega)
+      cases x with
+      | msg m =>
+        cases m with
+        | proposal sg' h' r' b' pol' =>
           unfold applyRoundWAL
           split
           · exact step s ⟨rfl, rfl, rfl⟩
